@@ -28,6 +28,10 @@ from fractions import Fraction
 from harness.core import import_cuqi, quiet, q, qv, qm, pv, pm
 
 TOL = 1e-9
+# configurations whose data are dyadic ("exact"): only floating-point rounding separates the implementation from the exact model.  The
+# rounding is relative to the INTERMEDIATE magnitudes (cubes of 1e3-sized inputs cancel down), observed up to 1.1e-13 relative to the output
+# (thorough, seed 1), so 1e-10 (was 1e-12: margin only 9x)
+EXACT_TOL = 1e-10
 
 
 # ------------------------------------------------------------------------------------------------ helpers
@@ -49,7 +53,27 @@ def veq(a, b, tol=TOL):
         a, b = a[~na], b[~nb]
         if a.size == 0:
             return True
-    return bool(np.all(np.abs(a - b) <= tol * (1.0 + max(np.abs(a).max(), np.abs(b).max()))))
+    bound = tol * (1.0 + max(np.abs(a).max(), np.abs(b).max()))
+    dev = float(np.abs(a - b).max())
+    ok = dev <= bound
+    if ok and tol > 0.0 and np.isfinite(dev):
+        # margin bookkeeping: largest passing deviation relative to its tolerance, per tolerance class
+        k = f"tol={tol:g}"
+        r = dev / bound
+        if r > MARGINS.get(k, 0.0):
+            MARGINS[k] = r
+    return bool(ok)
+
+
+MARGINS = {}
+
+
+def note_margin(name, dev, bound):
+    """largest passing deviation / tolerance of an oracle comparison that does not go through veq"""
+    if bound > 0 and np.isfinite(dev) and dev <= bound:
+        r = float(dev / bound)
+        if r > MARGINS.get(name, 0.0):
+            MARGINS[name] = r
 
 
 class Geo:
@@ -451,7 +475,8 @@ def run(ctx):
                     "par2fun/fun2par matrices of StepExpansion / KLExpansion / user geometries are leaf data measured on the implementation",
                     "scipy.linalg.solve inside SteadyStateLinearPDE (model: exact rational inverse, compared to 1e-9)"]
     ctx.assumptions += ["integer / dyadic inputs: comparison tolerance 1e-9 (relative+absolute) against exact rationals",
-                        "gradient oracle: Richardson-extrapolated central differences of forward in parameter space, tolerance 1e-5 relative to scale"]
+                        "gradient oracle: Richardson-extrapolated central differences of forward in parameter space, tolerance 1e-5 relative to scale (1e-4 for the rational Poisson PDE model: truncation error of the scheme)"]
+    MARGINS.clear()
     lines, pending = [], []     # pending: (line index, key, desc, impl canonical, tol)
     from harness.props import c12_ext
     genc = c12_ext.GeomEncoder(cuqi)
@@ -566,7 +591,7 @@ def run(ctx):
         foreign = cuqi.geometry.Continuous1D(np.arange(D.par_dim) + 0.5)   # unequal to everything else here, comparisons never raise
         canon = Canon(cuqi, [(Dg, gD), (Rg, gR), (foreign, 2)])
         exact = D.exact and R.exact and M.exact
-        tol = 0.0 if False else (1e-12 if exact else TOL)
+        tol = 0.0 if False else (EXACT_TOL if exact else TOL)
         conf = {"model": mk, "domain": D.label, "domain_gradient": D.gradstyle, "range": R.label, "n": D.par_dim, "seed_index": ci, "geometry_eq_raises": eq_raises, "loose_geometry_eq": loose_eq}
         hist[f"{mk.split('-')[0]}|{D.family}{'+grad' if D.gradstyle else ''}|{R.family}"] = hist.get(f"{mk.split('-')[0]}|{D.family}{'+grad' if D.gradstyle else ''}|{R.family}", 0) + 1
 
@@ -820,6 +845,11 @@ def run(ctx):
                 if f["case"].get("call") == desc.get("call"):
                     ctx.fail(key, f["case"], f["demanded"], f["got"], f["what"] + " [found while searching near a model/implementation disagreement]")
                     break
+    _dump_margins(ctx)
+
+
+def _dump_margins(ctx):
+    ctx.extra_cov["tolerance_margins(max passing deviation / tolerance)"] = {k: float(f"{v:.3g}") for k, v in sorted(MARGINS.items())}
 
 
 def rename_stream(ctx, cuqi, rng, lines, pending, verdicts, nconf):
@@ -892,7 +922,7 @@ def rename_stream(ctx, cuqi, rng, lines, pending, verdicts, nconf):
         Dtok, Rtok = D.token(0), R.token(1)
         canonA = Canon(cuqi, [(Dg, 0), (Rg, 1)])
         exact = D.exact and R.exact and M.exact
-        tol = 1e-12 if exact else TOL
+        tol = EXACT_TOL if exact else TOL
         lo = 0 if (D.nonneg or M.nonneg) else -3
         x = rng.randint(lo, 4, size=n).astype(float)
         Xs = rng.randint(lo, 4, size=(n, 2)).astype(float)
@@ -1075,7 +1105,7 @@ def robustness(ctx, cuqi, rng, lines, pending, verdicts, nconf):
         Dtok, Rtok = D.token(0), R.token(1)
         canon = Canon(cuqi, [(Dg, 0), (Rg, 1)])
         exact = D.exact and R.exact and M.exact
-        tol = 1e-12 if exact else TOL
+        tol = EXACT_TOL if exact else TOL
         conf = {"robustness": True, "model": mk, "domain": D.label, "domain_gradient": D.gradstyle, "range": R.label, "n": n,
                 "seed_index": 300000 + ri}
         cov[f"{mk.split('-')[0]}|{D.family}|n={n}"] = cov.get(f"{mk.split('-')[0]}|{D.family}|n={n}", 0) + 1
@@ -1406,7 +1436,7 @@ def wrapped_user_geometries(ctx, cuqi, rng, lines, pending, verdicts, nconf):
         d = rng.randint(-3, 4, size=R.par_dim).astype(float)
         with quiet():
             fx = np.asarray(Dg.par2fun(x), dtype=float)
-        tol = 1e-12 if not has_exp else TOL
+        tol = EXACT_TOL if not has_exp else TOL
         # forward (tie only where the maps are rational; oracle everywhere)
         ref = np.asarray(M.core(fx.ravel()), dtype=float)
         fw = [("nd-par", lambda: model.forward(x.copy()), f"nd:{qv(x)}", True),
@@ -1455,6 +1485,8 @@ def wrapped_user_geometries(ctx, cuqi, rng, lines, pending, verdicts, nconf):
                 refg = Jfd.T @ d
                 data = c[1] if c[0] == "nd" else c[3]
                 scale = 1.0 + np.abs(refg).max()
+                if data.shape == refg.shape and not np.isnan(data).any():
+                    note_margin("wrapped-gradient-oracle(1e-5*scale)", np.abs(data - refg).max() if data.size else 0.0, 1e-5 * scale * (1 + np.abs(fx).max()) ** 2)
                 if data.shape != refg.shape or np.isnan(data).any() or np.abs(data - refg).max() > 1e-5 * scale * (1 + np.abs(fx).max()) ** 2:
                     ctx.fail(key + ":value", desc, np.round(refg, 6).tolist(), short(c),
                              "gradient is not the transposed Jacobian of x -> forward(x): the derivative of the wrapper's map is missing")
@@ -1509,7 +1541,7 @@ def histories(ctx, cuqi, rng, lines, pending, verdicts, nhist):
         raw = raws[cname]
         A = np.column_stack([raw(e) for e in np.eye(n)])            # the callable is linear: its matrix (harness' own evaluation)
         exact = cname != "fft-circular"
-        tol = 1e-12 if exact else TOL
+        tol = EXACT_TOL if exact else TOL
 
         def mk_geom(kind):
             if kind == "int":
@@ -1703,7 +1735,7 @@ IN_SCOPE_FWD = ["nd-par", "nd-par-kw", "nd-fun", "arr-par", "arr-par-eqgeom", "a
 
 
 def oracle_forward(ctx, cuqi, verdicts, conf, M, D, R, model, Dg, Rg, x, fx, Xs, FXs, results, gR, exact):
-    tol = 1e-12 if exact else TOL
+    tol = EXACT_TOL if exact else TOL
     def ref_of(p):
         with quiet():
             f = np.asarray(Dg.par2fun(p), dtype=float)
@@ -1867,7 +1899,12 @@ def oracle_gradient(ctx, cuqi, verdicts, conf, M, D, R, model, Dg, Rg, x, fx, d,
             ctx.fail(key + ":raised" + sfx, desc, ref.tolist(), c[1], "gradient raised although every ingredient is available")
             continue
         data = c[1] if c[0] == "nd" else c[3]
-        if data.shape != ref.shape or np.isnan(data).any() or np.abs(data - ref).max() > 1e-5 * scale * (1 + np.abs(x).max()) ** 2:
+        # finite-difference noise: the Richardson scheme is exact (up to rounding) for the polynomial kinds; for the rational Poisson
+        # model its truncation error reaches 7.5e-7 relative (thorough tier), hence 1e-4 there (a wrong gradient is off by O(1))
+        gtol = (1e-5 if M.exact else 1e-4) * scale * (1 + np.abs(x).max()) ** 2
+        if data.shape == ref.shape and not np.isnan(data).any():
+            note_margin(f"gradient-oracle({'1e-5' if M.exact else '1e-4'}*scale):{conf['model'].split('-')[0]}", np.abs(data - ref).max() if data.size else 0.0, gtol)
+        if data.shape != ref.shape or np.isnan(data).any() or np.abs(data - ref).max() > gtol:
             ctx.fail(key + ":value", desc, np.round(ref, 6).tolist(), short(c),
                      "gradient is not the transposed Jacobian of x -> forward(x) applied to the direction")
             verdicts["gradient:wrong"] = verdicts.get("gradient:wrong", 0) + 1
